@@ -144,7 +144,11 @@ func runC19(c *Ctx) {
 	for i := 0; i < c.N(300, 8000); i++ {
 		s := []int{0, 1, 2, 3, 4, 5, 6, 7, 8, 9, 11, 12, 255, 65280, 65534, 65535}[r.Intn(16)]
 		cr := []int{0, 1, 2, 3, 4, 5, 6, 7, 8, 255, 65280, 65534, 65535}[r.Intn(13)]
-		w := cat([]byte{5, 0, 4}, u16(s), u16(cr))
+		var extra []byte // excess key data / surplus payload beyond the two type codes
+		if r.Bool() {
+			extra = r.Bytes(1 + r.Intn(12))
+		}
+		w := cat([]byte{5}, u16(4+len(extra)), u16(s), u16(cr), extra)
 		tail := r.Bytes(r.Intn(5))
 		in := cat(w, tail)
 		runParser(c, byName["NewKeyCertificate"], in, nil)
@@ -177,7 +181,7 @@ func runC19(c *Ctx) {
 				bc, be = bld.Build()
 			}
 			pl, pe := certificate.BuildKeyTypePayload(s, cr)
-			ok := be == nil && pe == nil && bytes.Equal(bc.Bytes(), k3.Bytes()) && bytes.Equal(cat([]byte{5, 0, 4}, pl), k3.Bytes()) && bytes.Equal(k3.Bytes(), w)
+			ok := be == nil && pe == nil && bytes.Equal(bc.Bytes(), k3.Bytes()) && bytes.Equal(cat([]byte{5, 0, 4}, pl), k3.Bytes()) && bytes.Equal(k3.Bytes(), cat([]byte{5, 0, 4}, u16(s), u16(cr)))
 			c.Check("entry_points_agree", ok, "NewKeyCertificateWithTypes vs builder vs BuildKeyTypePayload", [][]byte{i64(int64(s)), i64(int64(cr))}, "", "constructed key certificates differ")
 		}
 	}
